@@ -70,7 +70,7 @@ def r0 (inp : Input) : Nat := inp.ixSec.getD 0 0
 /-- the code's rule for "first reference row downstream of the splice" (`ix_sec_ta_ix0`) -/
 def taIx0 (xs : Array Rat) (s : Rat) : Nat :=
   if xs.size = 0 then 0
-  else if s ≥ xs.getD (xs.size - 1) 0 then xs.size
+  else if s > xs.getD (xs.size - 1) 0 then xs.size      -- strictly behind the last location (a splice AT it acts on it)
   else if s ≤ xs.getD 0 0 then 0
   else ((List.range xs.size).find? (fun k => xs.getD k 0 ≥ s)).getD xs.size
 
